@@ -22,6 +22,26 @@ T = {
  'C15': ('reference-model monitor: expression trees over intersect/difference evaluated by the crate vs pointwise set algebra on hook-observed leaf bounds; algebraic identities on crate results; intermediates re-parsed and reused', '5 C15'),
  'C16': ('reference-model monitor: table statement of node-semver 7.6.2 diff (validated against frozen real answers) over exhaustive small-field pairs + random pairs', '5 C16'),
 }
+ASSURE = {
+ 'C01': "Exhaustive over operator x partial shape x {0,1,2} (and hyphen shape pairs), sampled/complete pairs, random compound ranges with every loose spelling; each judged on ~30 probes per bound against the documented desugaring (cross-validated on 875k answers of real node-semver).",
+ 'C02': "Crate-vs-crate laws for union, conjunction (release and prerelease clauses), order and garbage invariance over pairs of the exhaustive comparator table, random lists and triples in all orders.",
+ 'C03': "Gate decided relative to the crate's own observed bounds: every tagged comparator form x tuples x tags, conjunctions with non-tight tagged bounds, generated -0 bounds, unions with tag and bounds in different alternatives, build-metadata invariance, resolver use.",
+ 'C04': "All ordered pairs of a pool of ~1,200 (quick) / ~4,000 (thorough) versions against a text-level SemVer order, coherence of Eq/Ord/PartialOrd/Hash, sampled triples, sorting and collections.",
+ 'C05': "Every string over a 9-character alphabet up to length 7 (quick) / 10 (thorough), one-edit neighbourhoods, length and numeric limits, against a recogniser with denotation (strict language must parse; accepted strings must be in the loose envelope with faithful fields).",
+ 'C06': "Panic/abort/timeout containment over exhaustive short strings of both alphabets, operation compositions to depth 3, random UTF-8, limits, long inputs; assertions-off slice; instruction-count growth at n/2n/4n for 17 families x 8 operations; memcheck slice every run, Miri slice in thorough.",
+ 'C07': "Exhaustive bound-kind table (121 intervals, all ordered pairs) + multi-alternative, prerelease and big-number operands + results fed back; pointwise membership, satisfaction clauses, exact emptiness, commutativity, idempotence, associativity.",
+ 'C08': "Same operand space as C07 plus exhaustive two-alternative B; pointwise over all alternatives of B, exact None-clause, disjointness from B, partition with intersect.",
+ 'C09': "Same operand space; allows_any vs intersect vs exact interval overlap, symmetry, touching endpoints, exact-version probes against observed bounds.",
+ 'C10': "Same operand space with single-alternative B; soundness on probes, implication of allows_any, self-inclusion, equivalence with difference().is_none().",
+ 'C11': "Table intervals, all ordered pairs of them as two alternatives, random and set-operation ranges; least admitted version by an exact candidate-set model (brute-force self-check each run), witnesses confirmed by the crate's satisfies.",
+ 'C12': "Every accepted string of the exhaustive enumeration, loose spellings, near-limit lengths and numbers, zero-padded identifiers, field-built versions; five-field round trip, fixed point, serde.",
+ 'C13': "Operator x shape table (also at MAX_SAFE and with build metadata), bound-kind table, random loose spellings, chains of up to three set operations; equivalence on probes, equality, fixed point, Display read back against stored state, serde.",
+ 'C14': "Random ranges x lists drawn from the range's own boundary probes (duplicates, build-only variants, prereleases above the top release); all permutations of short lists; pointer-into-slice, candidate and extremeness checks under the model order.",
+ 'C15': "Expression trees to depth 3 (exhaustive depth-2 over a small table in thorough) evaluated by the crate vs pointwise set algebra; the seven identities of the statement; intermediates re-parsed and reused.",
+ 'C16': "All 46,656 ordered pairs over small fields x tags x build (and with MAX_SAFE fields) + random pairs against a table statement of node-semver 7.6.2 diff (cross-validated on frozen real answers).",
+ 'C17': "Every error observed on exhaustive short strings, one-edit neighbourhoods, multi-line/multi-byte inputs and the MAX_LENGTH boundary sweep: input, offset, span, location recomputed independently; diagnostics rendered; kind clauses.",
+ 'C18': "u8 and i8 triples exhaustively (thorough), quadruples over value grids, 17 boundary values in every position for all ten integer types, against Version::parse of the dotted string.",
+}
 checks = []
 for p in props:
     i = p['id']
@@ -33,7 +53,7 @@ for p in props:
             "evidence_file": f"/verif/evidence/{i}.json",
             "replay_cmd_template": f"./check {i} --replay {{path}}",
             "engine": "verif-harness",
-            "level_claimed": {"category": "exploration", "text": "Runtime monitoring: the real crate (built from /repo's working tree with the hook cfg on) is executed on generated workloads and every observed answer is judged by an independent oracle; the verdict covers the executions of the run only (held on what was observed / violated with a replayable witness / inconclusive).", "design_ref": "DESIGN.md §" + T[i][1]},
+            "level_claimed": {"category": "exploration", "text": ASSURE[i] + " Runtime monitoring: the real crate (built from /repo's working tree, hook cfg on) is executed and every observed answer is judged by an oracle the harness owns; the verdict covers the executions of the run only (held on what was observed / violated with a replayable witness / inconclusive). Validated against independently seeded changes (DESIGN.md §9).", "design_ref": "DESIGN.md §" + T[i][1]},
             "level_note": "Trusted: the harness's reference models (cross-checked at every run against frozen answers of real node-semver 7.6.2 in golden/), rustc/cargo, the read-only hook Range::verif_bounds(). Says nothing about inputs outside the generated strata.",
             "technique": T[i][0],
         })
